@@ -8,6 +8,7 @@ from .util import Vars, reaches_without
 from . import p_c04
 from .p_c04 import ParserModel
 
+TECHNIQUE = 'static analysis: pairing rule (every tree/count change is accompanied by a raw-text append in the same iteration) on all paths; typestate reset; table injectivity; decision tables of tree construction'
 LEVEL = "other"
 EXPLANATION = (
     "Necessary conditions of the round trip decided on all paths of the parser's loop body: (RAW) every character "
